@@ -1744,10 +1744,13 @@ keepalive_possible (struct MHD_Connection *connection)
   struct MHD_Response *const r = c->rp.response;  /**< a short alias */
 
   mhd_assert (NULL != r);
-  if (MHD_CONN_MUST_CLOSE == c->keepalive)
-    return MHD_CONN_MUST_CLOSE;
-
 #ifdef UPGRADE_SUPPORT
+  /* An "upgrade" response always hands the connection over to the
+   * application, the connection is never reused for HTTP.  This must be
+   * decided before the "must close" check: a request with ambiguous framing
+   * (both "Content-Length" and "Transfer-Encoding: chunked") forces
+   * MHD_CONN_MUST_CLOSE, which otherwise put "close" in front of the
+   * application's "Connection: Upgrade" value of the 101 reply. */
   /* TODO: Move below the next check when MHD stops closing connections
    * when response is queued in first callback */
   if (NULL != r->upgrade_handler)
@@ -1760,6 +1763,8 @@ keepalive_possible (struct MHD_Connection *connection)
     return MHD_CONN_MUST_UPGRADE;
   }
 #endif /* UPGRADE_SUPPORT */
+  if (MHD_CONN_MUST_CLOSE == c->keepalive)
+    return MHD_CONN_MUST_CLOSE;
 
   mhd_assert ( (! c->stop_with_error) || (c->discard_request));
   if ((c->read_closed) || (c->discard_request))
